@@ -30,6 +30,24 @@ pub fn gen_procs(r: &mut Rng, n: usize, force_root_first: bool) -> Value {
     Value::Array(v)
 }
 
+/// a process that changes its credentials while it runs (setuid after start-up, or a recycled pid): a second entry with
+/// the same pid, thread, executable and command line but another user. Connections made "as" either entry come from
+/// the same pid; what the kernel records for each connection is the credential at that connect.
+pub fn add_credential_change(r: &mut Rng, procs: &mut Value) {
+    let a = procs.as_array_mut().unwrap();
+    let k = r.below(a.len() as u64) as usize;
+    let mut alias = a[k].clone();
+    let old_uid = alias["uid"].as_u64().unwrap_or(0) as u32;
+    let new_uid = if old_uid == 0 { USERS[1 + r.below(USERS.len() as u64 - 1) as usize].1 } else if r.chance(1, 2) { 0 } else { USERS[r.below(USERS.len() as u64) as usize].1 };
+    if new_uid == old_uid {
+        return;
+    }
+    alias["uid"] = json!(new_uid);
+    alias["gid"] = json!(new_uid);
+    alias["alias_of"] = json!(k);
+    a.push(alias);
+}
+
 /// scheduling / network swarm profile
 pub fn gen_knobs(r: &mut Rng, heavy_bias: bool) -> Value {
     let prof = r.below(if heavy_bias { 4 } else { 6 });
@@ -373,7 +391,11 @@ pub fn host_name_of(dst: &str) -> &'static str {
 pub fn gen_proxy(seed: u64, prop: &str, tier: &str) -> Value {
     let mut r = Rng::derive(seed, "work");
     let nprocs = 2 + r.below(4) as usize;
-    let procs = gen_procs(&mut r, nprocs, true);
+    let mut procs = gen_procs(&mut r, nprocs, true);
+    if matches!(prop, "C01" | "C03" | "C05" | "C07") && r.chance(1, 3) {
+        add_credential_change(&mut r, &mut procs);
+    }
+    let nprocs = procs.as_array().unwrap().len();
     let dup_names = prop == "C02" && r.chance(1, 6);
     // rule-document corner cases (missing sections, upper-case paths, duplicate names) belong to C02's check
     let o = RuleOpts { allow_upper_paths: prop == "C02", allow_dup_names: dup_names, allow_missing_sections: prop == "C02", allow_dangling: true };
@@ -386,6 +408,10 @@ pub fn gen_proxy(seed: u64, prop: &str, tier: &str) -> Value {
         _ => 4096,
     };
     let conc_transition = matches!(prop, "C01" | "C11") && r.chance(1, 5);
+    // swarm: a third of the runs meet a misbehaving upstream (host-level and connection-level faults placed inside
+    // the client batches), some a jumping wall clock, some a disk that refuses log writes
+    let upstream_faults = r.chance(1, 3);
+    let clock_jumps = r.chance(1, 6);
     for ph in 0..nphases {
         let doc = match prop {
             // properties that need a latched key most of the time
@@ -424,7 +450,16 @@ pub fn gen_proxy(seed: u64, prop: &str, tier: &str) -> Value {
             }
             conns.push(json!({"proc": p, "dst": dst, "start_ms": r.below(20), "pipeline": r.chance(1, 4), "gap_ms": r.below(3), "reqs": reqs}));
         }
+        if clock_jumps && r.chance(1, 2) {
+            steps.push(json!({"t": "clock_jump", "ms": *r.pick(&[-86_400_000i64, -3_600_000, -1000, 1000, 3_600_000, 86_400_000 * 400])}));
+        }
+        if upstream_faults {
+            gen_upstream_faults(&mut r, &mut steps);
+        }
         steps.push(json!({"t": "clients", "conns": conns}));
+        if upstream_faults {
+            steps.push(json!({"t": "clear_faults"}));
+        }
     }
     if prop == "C02" {
         return gen_c02(seed, &mut r, procs, o, dup_names, tier);
@@ -448,12 +483,41 @@ pub fn gen_proxy(seed: u64, prop: &str, tier: &str) -> Value {
         x => vec![x],
     };
     let knobs = gen_knobs(&mut r, false);
+    let mut disk_faults = Vec::new();
+    if r.chance(1, 8) {
+        // the log volume refuses a write (full disk, I/O error) somewhere during the run
+        disk_faults.push(json!({"op": "write", "path": "/var/log/azure-proxy-agent/", "nth": 1 + r.below(400), "errno": *r.pick(&[28i64, 5]), "short": 0}));
+    }
     json!({
-        "scenario": format!("proxy:{}", prop), "seed": seed, "family": "proxy", "prop": prop,
+        "scenario": format!("proxy:{}", prop), "seed": seed, "family": "proxy", "prop": prop, "disk_faults": disk_faults,
         "knobs": knobs, "procs": procs, "users": users_json(), "steps": steps, "oracles": oracles,
         "config": {"pollKeyStatusIntervalInSeconds": 1 + r.below(15)}, "settle_ms": 3000,
         "faulty": false
     })
+}
+
+/// faults placed right before a batch of client connections: the next requests of local clients that reach a host
+/// draw from the "client" queue; connection-level faults attach to the next connections the agent opens upstream
+pub fn gen_upstream_faults(r: &mut Rng, steps: &mut Vec<Value>) {
+    for _ in 0..r.below(3) {
+        let f = match r.below(7) {
+            0 => json!({"f": "status", "status": *r.pick(&[500u64, 502, 503, 429, 404, 410])}),
+            1 => json!({"f": "reset_before"}),
+            2 => json!({"f": "reset_after"}),
+            3 => json!({"f": "cut", "n": r.below(400)}),
+            _ => json!({"f": "stall", "ms": *r.pick(&[1u64, 5, 50, 500, 3000])}),
+        };
+        steps.push(json!({"t": "host_fault", "kind": "client", "fault": f}));
+    }
+    for _ in 0..r.below(3) {
+        let kind = match r.below(5) {
+            0 => json!({"f": "refuse"}),
+            1 => json!({"f": "reset_after", "pipe": r.below(2), "bytes": 1 + r.below(700)}),
+            2 => json!({"f": "close_after", "pipe": 1, "bytes": 1 + r.below(400)}),
+            _ => json!({"f": "stall", "pipe": r.below(2), "bytes": 1 + r.below(300), "ms": *r.pick(&[1u64, 20, 400, 2500])}),
+        };
+        steps.push(json!({"t": "net_fault", "dst": *r.pick(&["imds", "wire", "ga"]), "agent": true, "kind": kind}));
+    }
 }
 
 /// C02: rule-heavy documents; every request set is sent twice, the second time after the host has served an
